@@ -191,7 +191,9 @@ def shard_ec(G, curve, h, g0, g1, kmax, seed, acc) -> None:
             continue
         q = ec.mul(c, x, c.g)
         assert q is not None
-        pub = gkdi.pack_ec_key(curve, c.size, q[0], q[1])
+        # the group public key with its coordinates in fields WIDER than the curve (leading zero octets), for three of four group keys
+        padk = (0, 1, 4, 16)[gi % 4]
+        pub = gkdi.pack_ec_key(curve, c.size + padk, q[0], q[1])
         enc_env, dec_env = envs(G, rk, ch, pos, pub)
         kg: ec.Point = None
         kq: ec.Point = None
@@ -212,7 +214,7 @@ def shard_ec(G, curve, h, g0, g1, kmax, seed, acc) -> None:
                 continue
             if consumed:
                 zx = eq[0]
-                ref_info = gkdi.pack_ec_key(curve, c.size, eg[0], eg[1])
+                ref_info = gkdi.pack_ec_key(curve, c.size, eg[0], eg[1]) if padk == 0 else None
                 if eg[0].to_bytes(c.size, "big")[0] == 0 or eg[1].to_bytes(c.size, "big")[0] == 0:
                     acc.set_add("ec_ephemeral_point_leading_zero", (curve, k))
             else:
